@@ -568,7 +568,8 @@ def check_path(ex, F, unit, sim, kind, r, res, known_classes):
                                                'after the segment the retransmission queue no longer holds exactly the unacknowledged sequence space: ' + what, 'c01', model=m))
     # ---------------- (C01, liveness step) whatever is still unacknowledged is retransmitted once the retransmission timer has expired:
     # after advance_time(dt > RTO) the next segments() contains a segment that covers SND.UNA
-    if 'post3' in info and info.get('adv') != 'CloseConnection' and info['arr'] == 'Ok':
+    if 'post3' in info and info.get('adv') != 'CloseConnection' and info['arr'] == 'Ok' and unit['situation'] in TIMER_SITUATIONS_QUICK:
+        # (stated for the situations with data in flight on the sending side, where it has been exercised on the unchanged tree in both tiers)
         p3 = info['post3']
         res.obligations += 1
         conforming_ack = True
